@@ -268,7 +268,7 @@ class NormalizeZScore(Command):
         y1 = end
         y2 = start
 
-        result = arr.copy()
+        result = arr.astype(float)
         result -= x1
         result *= y2 - y1
         result /= x2 - x1
